@@ -8,14 +8,15 @@ CONSTANTS MaxSettings, Emit,
 \* "yn" / "g.yn" are yes/no flags (ActionYesNo): booleans like "b", declared differently by the harness
 \* "items" and "g.values" are ordinary keys whose NAMES are attributes of the Namespace class (stored under a marked name,
 \* _namespace.py:318-331): before fix 737ad47 their values were not normalised on the document channels
-Shape == [k \in {"i", "f", "b", "s", "o", "os", "l", "m", "ls", "d", "dl", "g.i", "g.s", "g.h.l", "yn", "g.yn", "items", "g.values"} |->
+Shape == [k \in {"i", "f", "b", "s", "o", "os", "l", "m", "ls", "d", "dl", "g.i", "g.s", "g.h.l", "yn", "g.yn", "items", "g.values", "ds"} |->
   CASE k = "i" -> Ty("scalar", "int", FALSE)   [] k = "f" -> Ty("scalar", "float", FALSE) [] k = "b" -> Ty("scalar", "bool", FALSE)
     [] k = "s" -> Ty("scalar", "str", FALSE)   [] k = "o" -> Ty("scalar", "int", TRUE)    [] k = "os" -> Ty("scalar", "str", TRUE)
     [] k = "l" -> Ty("list", "int", FALSE)     [] k = "m" -> Ty("list", "float", FALSE)   [] k = "ls" -> Ty("list", "str", FALSE)
     [] k = "d" -> Ty("dict", "int", FALSE)     [] k = "dl" -> Ty("dictlist", "int", FALSE)   [] k = "g.i" -> Ty("scalar", "int", FALSE) [] k = "g.s" -> Ty("scalar", "str", FALSE)
     [] k = "g.h.l" -> Ty("list", "int", FALSE) [] k \in {"yn", "g.yn"} -> Ty("scalar", "bool", FALSE)
-    [] k = "items" -> Ty("list", "int", FALSE) [] k = "g.values" -> Ty("scalar", "int", FALSE)]
-KeySeq == <<"i", "f", "b", "s", "o", "os", "l", "m", "ls", "d", "dl", "g.i", "g.s", "g.h.l", "yn", "g.yn", "items", "g.values">>
+    [] k = "items" -> Ty("list", "int", FALSE) [] k = "g.values" -> Ty("scalar", "int", FALSE)
+    [] k = "ds" -> Ty("dict", "str", FALSE)]        \* a dict of STRINGS: its items are given as --ds.k1=<text> on the command line, and the text may hold an equals sign
+KeySeq == <<"i", "f", "b", "s", "o", "os", "l", "m", "ls", "d", "dl", "g.i", "g.s", "g.h.l", "yn", "g.yn", "items", "g.values", "ds">>
 
 List(es) == [c |-> "list", e |-> es]
 Dict(es) == [c |-> "dict", e |-> es]
@@ -28,13 +29,14 @@ NonStrings == {Scalar("int", "3"), Scalar("int", "-3"), Scalar("int", "0"), Scal
                DictList(<<El("int", "1", "k1"), El("int", "2", "k1")>>), DictList(<<El("int", "1", "k1"), El("int", "3", "k2"), El("int", "4", "k2")>>),
                DictList(<<El("int", "1", "k1"), El("float", "1.5", "k1")>>),
                Dict(<<El("int", "1", "k1")>>), Dict(<< >>), Dict(<<El("int", "1", "k1"), El("int", "2", "k2")>>), Dict(<<El("float", "2.5", "k1")>>)}
-Texts == {"abc", "", "1", "true", "s p", "1e3", "2.5", "a: b", "#x", "[1]", "{}"}
+Texts == {"abc", "", "1", "true", "s p", "1e3", "2.5", "a: b", "#x", "[1]", "{}", "a=b"}
 \* strings only where the position is str (the property's "unambiguous" settings); containers of strings also at
 \* non-str positions (they are JSON text on every channel)
 StrValues(t) ==
   (IF t.c = "scalar" /\ t.st = "str" THEN {Scalar("str", x) : x \in (Texts \cup {"null", "~"}) \ (IF t.opt THEN {x \in Texts \cup {"null", "~"} : ReadsAsNull(x)} ELSE {})} ELSE {})
   \cup (IF t.c = "list" THEN {List(<<El("str", "a", ""), El("str", "1", "")>>)} ELSE {})
   \cup (IF t.c = "dict" THEN {Dict(<<El("str", "x", "k1")>>)} ELSE {})
+  \cup (IF t.c = "dict" /\ t.st = "str" THEN {Dict(<<El("str", "a=b", "k1")>>), Dict(<<El("str", "k=v=w", "k1"), El("str", "p:q", "k2")>>)} ELSE {})
 \* At a str-typed scalar position EVERY text is a string on the command line (true, [1], null ...), so a non-string
 \* value there is ambiguous and outside the property's quantifier: such keys get strings only (and null if Optional).
 IsStrScalar(t) == t.c = "scalar" /\ t.st = "str"
